@@ -200,7 +200,7 @@ fn main() {
     v.push_str("From Coq Require Import ZArith QArith List Bool Floats.\n");
     v.push_str(&format!("From KV Require Import {}.\n", imports));
     v.push_str("Import ListNotations.\n\nSet Implicit Arguments.\n\nSection Gen.\nContext {T : Type} `{Scalar T}.\nLocal Open Scope S_scope.\n\n");
-    v.push_str("(* Rust standard-library operations on slices used by the translated code *)\nFixpoint tr_set (l : list T) (i : nat) (x : T) : list T :=\n  match l, i with\n  | [], _ => []\n  | _ :: r, O => x :: r\n  | a :: r, S i' => a :: tr_set r i' x\n  end.\nDefinition tr_swap (l : list T) (i j : nat) : list T := tr_set (tr_set l i (nth j l f0)) j (nth i l f0).\nFixpoint tr_find_map {A B : Type} (f : A -> option B) (l : list A) : option B :=\n  match l with\n  | [] => None\n  | x :: r => match f x with Some y => Some y | None => tr_find_map f r end\n  end.\n\n");
+    v.push_str("(* Rust standard-library operations on slices used by the translated code *)\nFixpoint tr_set (l : list T) (i : nat) (x : T) : list T :=\n  match l, i with\n  | [], _ => []\n  | _ :: r, O => x :: r\n  | a :: r, S i' => a :: tr_set r i' x\n  end.\nDefinition tr_swap (l : list T) (i j : nat) : list T := tr_set (tr_set l i (nth j l f0)) j (nth i l f0).\nFixpoint tr_drain {St A : Type} (next : St -> option A * St) (fuel : nat) (s : St) : list A :=\n  match fuel with\n  | O => []\n  | S k => match next s with (Some a, s') => a :: tr_drain next k s' | (None, _) => [] end\n  end.\nFixpoint tr_find_map {A B : Type} (f : A -> option B) (l : list A) : option B :=\n  match l with\n  | [] => None\n  | x :: r => match f x with Some y => Some y | None => tr_find_map f r end\n  end.\n\n");
     let mut def_lines: Vec<(usize, usize, usize)> = Vec::new(); // fn index, first line, last line
     for &i in &order {
         if let Some(d) = &outs[i].def {
